@@ -3,6 +3,7 @@ package main
 // SMT-LIB helpers: sorts, names, prelude.
 
 import (
+	"regexp"
 	"fmt"
 	"go/types"
 	"sort"
@@ -115,8 +116,14 @@ func implies(a, b string) string {
 }
 
 // typeKey gives a canonical short name of a Go type, used in heap names.
+var byteRe = regexp.MustCompile(`\bbyte\b`)
+var runeRe = regexp.MustCompile(`\brune\b`)
+
 func typeKey(t types.Type) string {
-	return sanitize(types.TypeString(t, func(p *types.Package) string { return p.Name() }))
+	s := types.TypeString(t, func(p *types.Package) string { return p.Name() })
+	s = byteRe.ReplaceAllString(s, "uint8")
+	s = runeRe.ReplaceAllString(s, "int32")
+	return sanitize(s)
 }
 
 // Sorts registry: struct datatypes declared on demand.
